@@ -122,3 +122,43 @@ func zzC11_tcp_nested() {
 	symWaitUntil(func() bool { return runDone })
 	_ = context.Background
 }
+
+// a request monitor filters some messages out; messages that arrive in the same read behind a filtered one are
+// still dispatched, exactly once and in order, without waiting for further bytes
+func zzC11_tcp_monitor_drop() {
+	var got []byte
+	zzPipeRequestMonitor = func(cc *Conn, req *pool.Message) (bool, error) {
+		t := req.Token()
+		return len(t) == 1 && t[0] == 0xDD, nil // drop
+	}
+	nc := zzNewPipe()
+	cc := zzNewPipeConnH(nc, func(w *responsewriter.ResponseWriter[*Conn], r *pool.Message) {
+		if t := r.Token(); len(t) == 2 && t[0] == 0xC0 {
+			got = append(got, t[1])
+		}
+	}, 1152)
+	runDone := false
+	go func() {
+		_ = cc.Run()
+		runDone = true
+	}()
+	symSchedCanonical(true)
+	// a decided mix of 3 frames, filtered or not, coalesced into one read
+	var stream []byte
+	var want []byte
+	for i := 0; i < 3; i++ {
+		if symChoose("filtered", 2) == 1 {
+			stream = append(stream, zzMkFrame(codes.DELETE, message.Token{0xDD}, nil)...)
+		} else {
+			stream = append(stream, zzMkFrame(codes.GET, message.Token{0xC0, byte(i)}, nil)...)
+			want = append(want, byte(i))
+		}
+	}
+	nc.in <- stream
+	symIdle()
+	symCover("coalesced-read-processed")
+	symAssert(bytes.Equal(got, want), "every message that is not filtered out is dispatched once, in order, as soon as the read that contains it has been processed")
+	symAssert(!runDone, "the connection is still served")
+	_ = cc.Close()
+	symWaitUntil(func() bool { return runDone })
+}
